@@ -20,10 +20,10 @@ def gen_scenario(rng, cfg):
         k = rng.below(100)
         if k < 22:
             ops.append({"op": "launch", "bg": False, "n": rng.choice([1, 1, 2, 3]),
-                        "codes": [rng.choice([0, 0, 1, 5]) for _ in range(3)]})
+                        "codes": [rng.choice([0, 0, 1, 5]) for _ in range(3)], "helper": rng.chance(20)})
         elif k < 36:
             ops.append({"op": "launch", "bg": True, "n": rng.choice([1, 1, 2, 3]),
-                        "codes": [rng.choice([0, 0, 1, 5]) for _ in range(3)]})
+                        "codes": [rng.choice([0, 0, 1, 5]) for _ in range(3)], "helper": rng.chance(20)})
         elif k < 46:
             ops.append({"op": "ctrlz"})
         elif k < 51:
@@ -253,6 +253,7 @@ class C07Runner:
         sim = self.sim
         sh = self.shell
         sim.ev("prompt")
+        self.idle_waits = 0
         self.release_parked_children()
         owner = sh.fg_pgrp()
         if owner != sh.pgid:
@@ -277,6 +278,7 @@ class C07Runner:
                 if self.truth_state(m) == "T":
                     raise Violation("bg_not_resumed", "after `bg` %s of %s is still stopped" % (m.name, job.label()))
                 m.stopped = False
+            self.helper_resumed(job, "bg")
             self.sim.probe("bg_resumed_whole_job")
         self.scan_output()
         self.state = "prompt"
@@ -361,6 +363,7 @@ class C07Runner:
             o = len(self.jobs)
             members = [Member("j%dm%d" % (o, i), op["codes"][i]) for i in range(op["n"])]
             job = Job(o, op["bg"], members)
+            job.helper = bool(op.get("helper"))
             self.jobs.append(job)
             self.pending = list(members)
             self.launching = job
@@ -542,6 +545,13 @@ class C07Runner:
             raise Violation("stage_started_twice", "%s started as %r" % (m.name, m.pup.name))
         sim.ev("hello", m.name)
         self.check_group(m, job, m.pup.hello["pgrp"])
+        if getattr(job, "helper", False) and m is job.members[-1]:
+            # a stage that starts a process of its own inside the job's group: job control acts on the group
+            rep = m.pup.rpc("spawn").split()
+            if rep[0] == "spawned" and int(rep[1]) > 0:
+                job.helper_pid = int(rep[1])
+                sim.names[job.helper_pid] = m.name + ".helper"
+                sim.probe("job_with_a_grandchild_in_its_group")
         sig = m.pup.hello.get("sig", {})
         blocked = [b for b in sig.get("blocked", []) if b in (2, 20, 21, 22)]
         bad = [n for n in ("2", "20", "21", "22") if sig.get(n) not in (None, "dfl")]
@@ -580,6 +590,7 @@ class C07Runner:
                 for m in job.live():
                     if self.truth_state(m) == "T":
                         raise Violation("fg_not_resumed", "after `fg` %s of %s is still stopped" % (m.name, job.label()))
+                self.helper_resumed(job, "fg")
                 sim.probe("fg_resumed_whole_job")
             for other in self.live_jobs():
                 if other is not job and other.gid == owner:
@@ -596,8 +607,13 @@ class C07Runner:
                 # nothing scheduled: the foreground job is driven to its end (or it is a line op's turn)
                 if job is None or not [m for m in job.live() if self.truth_state(m) not in ("Z", "X")]:
                     # only zombies left: their reports are pending
+                    self.idle_waits = getattr(self, "idle_waits", 0) + 1
+                    if self.idle_waits > 12:
+                        raise Violation("deadlock", "the shell keeps waiting in the foreground although no process of %s is "
+                                        "left to wait for" % (job.label() if job else "the line"))
                     self.wait_dirty = True
                     return True
+                self.idle_waits = 0
                 m = next((x for x in job.live() if self.truth_state(x) not in ("T", "Z", "X")), None)
                 if m is None:
                     # all stopped with the shell still waiting: it must have been told already
@@ -657,8 +673,27 @@ class C07Runner:
             else:
                 self.mark_dead(m)
         self.wait_dirty = True
+        hp = getattr(job, "helper_pid", None)
+        if hp and self.truth_state_pid(hp) not in ("Z", "X"):
+            deadline = time.time() + WATCHDOG
+            want_h = "T" if name == "ctrlz" else "ZX"
+            while self.truth_state_pid(hp) not in want_h + "ZX":
+                if time.time() > deadline:
+                    raise Violation("ctrlz_not_all_stopped" if name == "ctrlz" else "ctrlc_not_delivered",
+                                    "the helper process inside the group of %s did not get the terminal signal" % job.label())
+                time.sleep(0.0003)
         if name == "ctrlz" and len(job.members) >= 3:
             sim.probe("ctrlz_on_three_stage_pipeline")
+
+    def truth_state_pid(self, pid):
+        return proc_state(pid)
+
+    def helper_resumed(self, job, what):
+        hp = getattr(job, "helper_pid", None)
+        if hp and self.truth_state_pid(hp) == "T":
+            raise Violation("bg_not_resumed" if what == "bg" else "fg_not_resumed",
+                            "after `%s` the helper process inside the group of %s is still stopped (the whole group has to be resumed)" % (
+                                what, job.label()))
 
     def mark_dead(self, m):
         job = next((j for j in self.jobs if m in j.members), None)
@@ -761,6 +796,13 @@ class C07Runner:
                             pass
                         sim.wait_state(m.pid, "ZX", "final kill")
                     self.mark_dead(m)
+            for j in self.jobs:
+                hp = getattr(j, "helper_pid", None)
+                if hp:
+                    try:
+                        os.kill(hp, signal.SIGKILL)
+                    except OSError:
+                        pass
             sim.ev("killall")
             self.finish_stage = 1
             self.shell.type_line("")
